@@ -57,7 +57,7 @@ def generate(rng, seed, index, tier):
 
         x0 = np.asarray(x0, float) + np.round(rng.normal(size=spec["n"]) * 2, 3)
     if rng.random() < 0.5:
-        kw["time_limit"] = float(rng.choice([0.05, 0.5, 5.0, 50.0]))
+        kw["time_limit"] = float(rng.choice([0.0, 0.05, 0.5, 5.0, 50.0], p=[0.06, 0.24, 0.25, 0.25, 0.2]))
     if fam == "unbounded" and rng.random() < 0.5:
         kw["obj_lower_limit"] = float(rng.choice([-1e3, -1e6]))
     kw["display_interval"] = float(rng.choice([0.1, 1e18]))
@@ -71,7 +71,10 @@ def generate(rng, seed, index, tier):
         kw["active_tol"] = float(rng.choice([1e-10, 1e-8, 1e-5, 1e-3]))
         if rng.random() < 0.5:
             kw["opt_tol"] = float(rng.choice([1e-8, 1e-6, 1e-4]))
-    return gen.base_world(seed, ID, index, spec, x0, y0, kw, clock=clock, obs=gen.silent_obs())
+    obs = gen.silent_obs()
+    if rng.random() < 0.3:
+        obs = {"level": "CRITICAL", "callbacks": ["touch"]}  # an observer that asks the iterates its own questions
+    return gen.base_world(seed, ID, index, spec, x0, y0, kw, clock=clock, obs=obs)
 
 
 def status_check(ex, prop=ID, sub=None):
